@@ -233,7 +233,48 @@ def client_facts(tree):
     init = find_func(core, "__init__", "_ExceptionWrapper")
     stores = any(isinstance(s, ast.Assign) and len(s.targets) == 1 and isinstance(s.targets[0], ast.Attribute)
                  and s.targets[0].attr == "exception" and isinstance(s.value, ast.Name) for s in init.body)
+    # the queue of a re-used BatchProxy: `self.__calls = []` unconditionally in __call__ and _pyroInvoke
+    # (after the submission, or swapped out before it), never inside the lazily run generator
+    def is_calls_attr(n):
+        return isinstance(n, ast.Attribute) and n.attr == "__calls" and isinstance(n.value, ast.Name) and n.value.id == "self"
+
+    def clears(st):
+        if isinstance(st, ast.Assign) and len(st.targets) == 1:
+            t, v = st.targets[0], st.value
+            if is_calls_attr(t) and isinstance(v, ast.List) and not v.elts:
+                return True
+            if isinstance(t, ast.Tuple) and isinstance(v, ast.Tuple) and len(t.elts) == len(v.elts):
+                return any(is_calls_attr(a) and isinstance(b, ast.List) and not b.elts for a, b in zip(t.elts, v.elts))
+        return False
+
+    def submit_clears(fn):
+        """(cleared on the normal path, cleared also when the submission raises)"""
+        idx = [i for i, st in enumerate(fn.body) if _calls_named(st, "_pyroInvokeBatch")]
+        need(len(idx) == 1, "BatchProxy.%s: _pyroInvokeBatch not called in exactly one top-level statement" % fn.name)
+        i = idx[0]
+        st = fn.body[i]
+        before = any(clears(x) for x in fn.body[:i])
+        if isinstance(st, ast.Try):
+            fin = any(clears(x) for x in st.finalbody)
+            if fin:
+                return True, True
+        if isinstance(st, ast.Return):
+            return before, before
+        after = False
+        for x in fn.body[i + 1:]:
+            if clears(x):
+                after = True
+                break
+            if isinstance(x, (ast.Return, ast.If, ast.Try, ast.For, ast.While, ast.With)):
+                break
+        return (before or after), before
+    c1, f1 = submit_clears(call)
+    adapter = find_func(cmod, "_pyroInvoke", "BatchProxy")
+    c2, f2 = submit_clears(adapter)
+    gen_touches_queue = any(is_calls_attr(x) for x in ast.walk(gen))
     return {"generator_raises_wrapper": raises and yields_else, "oneway_returns_nothing": ret_guarded,
+            "queue_cleared_at_submit": c1 and c2, "queue_cleared_on_failed_submit": f1 and f2,
+            "generator_leaves_queue_alone": not gen_touches_queue,
             "batch_flags": sets_batch and sets_oneway, "client_oneway_no_wait": ow_ret,
             "raiseit_same_exception": raise_same and stores,
             "sha": ast_sha(gen) + ast_sha(call)}
@@ -261,8 +302,14 @@ def gen_batch(tree):
     out += "Definition oneway_returns_nothing : bool := %s.\n" % cbool(c["oneway_returns_nothing"])
     out += "Definition batch_flags_set : bool := %s.\n" % cbool(c["batch_flags"])
     out += "Definition client_oneway_no_wait : bool := %s.\n" % cbool(c["client_oneway_no_wait"])
+    out += "(* re-use: BatchProxy.__call__ and ._pyroInvoke empty the queue unconditionally at submission; the lazily run generator never touches it *)\n"
+    out += "Definition queue_cleared_at_submit : bool := %s.\n" % cbool(c["queue_cleared_at_submit"])
+    out += "Definition generator_leaves_queue_alone : bool := %s.\n" % cbool(c["generator_leaves_queue_alone"])
+    out += "(* informational (the harness probes the behaviour): is the queue emptied even when the submitting call raises? *)\n"
+    out += "Definition queue_cleared_on_failed_submit : bool := %s.\n" % cbool(c["queue_cleared_on_failed_submit"])
     out += ("Definition batch_structure : list bool := [wraps_exception; gate_per_member; appends_result; oneway_no_reply; "
-            "oneway_no_error_reply; generator_raises_wrapper; raiseit_same_exception; oneway_returns_nothing; batch_flags_set; client_oneway_no_wait].\n")
+            "oneway_no_error_reply; generator_raises_wrapper; raiseit_same_exception; oneway_returns_nothing; batch_flags_set; client_oneway_no_wait; "
+            "queue_cleared_at_submit; generator_leaves_queue_alone].\n")
     info = dict(s)
     info.update(c)
     info.pop("sha", None)
